@@ -4,6 +4,7 @@ import (
 	"context"
 	"errors"
 	"fmt"
+	"reflect"
 	"strings"
 	"sync"
 	"time"
@@ -58,6 +59,8 @@ func runC09(w *fw.Worker) {
 			c09Concurrent(w, i, r)
 		case g%7 == 3:
 			c09NoWatcher(w, i, r)
+		case g%11 == 6:
+			c09NoVerifyMethod(w, i, r, g/11)
 		default:
 			c09Walk(w, i, r, g)
 		}
@@ -510,3 +513,139 @@ func c09Concurrent(w *fw.Worker, i int, r *fw.Rand) {
 }
 
 var _ = sourcewrap.Blank{}
+
+// ---- a config type without a Verify method
+
+// c09Plain has no Verify method: every config is valid, and EnableVerification must still end the delay.
+type c09Plain struct {
+	A int
+	B string
+}
+
+type c09PlainSrc struct {
+	mu sync.Mutex
+	wa  dials.WatchArgs
+	typ *dials.Type
+	a   int
+}
+
+func (s *c09PlainSrc) val(t *dials.Type, a int) reflect.Value {
+	v := reflect.New(t.Type()).Elem()
+	v.FieldByName("A").Set(reflect.ValueOf(&a))
+	return v
+}
+
+func (s *c09PlainSrc) Value(_ context.Context, t *dials.Type) (reflect.Value, error) {
+	return s.val(t, s.a), nil
+}
+
+func (s *c09PlainSrc) Watch(_ context.Context, t *dials.Type, wa dials.WatchArgs) error {
+	s.mu.Lock()
+	s.wa, s.typ = wa, t
+	s.mu.Unlock()
+	return nil
+}
+
+// c09NoVerifyMethod: the four option combinations on a config type without Verify(): updates and source errors
+// before / after EnableVerification; global callbacks withheld only while the delay is in force and suppress is set.
+func c09NoVerifyMethod(w *fw.Worker, i int, r *fw.Rand, g int) {
+	delay, suppress := g&1 == 0, g&2 == 0
+	desc := map[string]any{"mode": "config-type-without-verify-method", "delay": delay, "suppress": suppress}
+	w.BeginDesc(i, fmt.Sprintf("no-verify-method delay=%v suppress=%v", delay, suppress))
+	var mu sync.Mutex
+	var newA []int
+	var errs []string
+	p := dials.Params[c09Plain]{DelayInitialVerification: delay, CallGlobalCallbacksAfterVerificationEnabled: suppress,
+		OnNewConfig: func(_ context.Context, _, n *c09Plain) { mu.Lock(); newA = append(newA, n.A); mu.Unlock() },
+		OnWatchedError: func(_ context.Context, err error, _, _ *c09Plain) {
+			mu.Lock()
+			errs = append(errs, err.Error())
+			mu.Unlock()
+		},
+	}
+	ctx, cancel := context.WithCancel(context.Background())
+	defer cancel()
+	src := &c09PlainSrc{a: 1}
+	d, err := p.Config(ctx, &c09Plain{B: "b"}, src)
+	if err != nil {
+		w.Violation(i, "config-failed", err.Error(), desc)
+		return
+	}
+	typ := src.typ
+	next := 1
+	counts := func() (int, int) { mu.Lock(); defer mu.Unlock(); return len(newA), len(errs) }
+	// step: one update and one source error; expect delivered iff !(inForce && suppress)
+	step := func(phase string, inForce bool) bool {
+		n0, e0 := counts()
+		next++
+		if rerr := src.wa.BlockingReportNewValue(ctx, src.val(typ, next)); rerr != nil {
+			w.Violation(i, "report-failed:no-verify-method", rerr.Error(), desc)
+			return false
+		}
+		if d.View().A != next {
+			w.Violation(i, "view-not-updated:no-verify-method", fmt.Sprintf("%s: view.A=%d after a nil blocking report of %d", phase, d.View().A, next), desc)
+			return false
+		}
+		src.wa.ReportError(ctx, fmt.Errorf("plain-src-error-%d", next))
+		// fence: a callback registration round trip orders us after everything queued so far
+		_, tok := d.ViewVersion()
+		if un := d.RegisterCallback(ctx, tok, func(context.Context, *c09Plain, *c09Plain) {}); un != nil {
+			un(ctx)
+		}
+		withheld := inForce && suppress
+		ok := conc.WaitUntil(func() bool {
+			n1, e1 := counts()
+			if withheld {
+				return true
+			}
+			return n1 == n0+1 && e1 == e0+1
+		}, 5*time.Second)
+		n1, e1 := counts()
+		switch {
+		case withheld && (n1 != n0 || e1 != e0):
+			w.Violation(i, "global-callback-delivered-while-withheld:no-verify-method", fmt.Sprintf("%s: OnNewConfig +%d, OnWatchedError +%d", phase, n1-n0, e1-e0), desc)
+			return false
+		case !withheld && !ok:
+			key := "global-callback-missing:new:no-verify-method"
+			if n1 == n0+1 {
+				key = "global-callback-missing:err:no-verify-method"
+			}
+			w.Violation(i, key, fmt.Sprintf("%s (delay in force=%v, suppress=%v): OnNewConfig +%d, OnWatchedError +%d, expected +1/+1", phase, inForce, suppress, n1-n0, e1-e0), desc)
+			return false
+		}
+		w.Count("global_deliveries_compared", 2)
+		if withheld {
+			w.Count("withheld_states_observed", 1)
+		}
+		return true
+	}
+	for k := r.Range(1, 3); k > 0; k-- {
+		if !step("before EnableVerification", delay) {
+			return
+		}
+	}
+	cfg, tok, eerr := d.EnableVerification(ctx)
+	cur, curTok := d.ViewVersion()
+	if eerr != nil || cfg != cur || tok != curTok {
+		w.Violation(i, "enable-on-type-without-verify-method", fmt.Sprintf("EnableVerification returned (%p, %v); installed %p", cfg, eerr, cur), desc)
+		return
+	}
+	w.Count("enable_calls_judged", 1)
+	for k := r.Range(1, 3); k > 0; k-- {
+		if !step("after EnableVerification", false) {
+			return
+		}
+	}
+	if r.Bool() {
+		// a redundant enable is a no-op success
+		if _, _, e2 := d.EnableVerification(ctx); e2 != nil {
+			w.Violation(i, "redundant-enable-not-a-noop-success", e2.Error(), desc)
+			return
+		}
+		if !step("after a second EnableVerification", false) {
+			return
+		}
+	}
+	w.Distinct(fmt.Sprintf("noverify|%v|%v|%d", delay, suppress, next))
+	w.Count("walks_judged", 1)
+}
